@@ -190,6 +190,41 @@ def run_context_bodies(out):
                      sample=lambda c: c, classify=lambda c, i: "body/" + c["body"])
 
 
+def run_pushed_data(out):
+    """the device sends data nobody asked for (a few KiB in several bursts) while the client is connected and idle; the client disconnects:
+    the device sees an orderly end of stream, not a reset"""
+    async def one(cls, total):
+        ip = world.loopback_ip(14); dev = Dev(ip, 9957 if cls is SwitcherType1Api else 10000); writers = []
+        async def handle(r, w):
+            writers.append(w); dev.open += 1
+            try:
+                while True:
+                    d = await r.read(4096)
+                    if not d: dev.eofs += 1; break
+            except ConnectionError: dev.resets += 1
+            finally: dev.open -= 1; w.close()
+        srv = await asyncio.start_server(handle, ip, dev.port); api = cls(ip, "ab1c2d", "18")
+        try:
+            await api.connect(); await settle()
+            for _ in range(total):
+                writers[0].write(bytes(1024)); await writers[0].drain(); await settle()
+            await asyncio.sleep(0.05)
+            try: await asyncio.wait_for(api.disconnect(), PATIENCE); r = "returned"
+            except asyncio.TimeoutError: r = "never returned"
+            except Exception as e: r = "raised " + type(e).__name__
+            await settle(); await asyncio.sleep(0.05)
+            return "disconnect %s; connected=%s; the device saw %d end(s) of stream and %d reset(s)" % (r, api.connected, dev.eofs, dev.resets)
+        finally:
+            srv.close(); await asyncio.sleep(0)
+    cases = [{"cls": c.__name__, "kib": n} for c in (SwitcherType1Api, SwitcherType2Api) for n in (1, 3, 6, 40)]
+    by = {"SwitcherType1Api": SwitcherType1Api, "SwitcherType2Api": SwitcherType2Api}
+    async def go(): return [await asyncio.wait_for(one(by[c["cls"]], c["kib"]), 60) for c in cases]
+    io = asyncio.run(go())
+    lib.differential(out, "the-device-pushes-data-nobody-reads-then-the-client-disconnects", cases, io, None,
+                     ["disconnect returned; connected=False; the device saw 1 end(s) of stream and 0 reset(s)"] * len(cases),
+                     lambda c: "%s: %d KiB pushed by the device in 1 KiB bursts, then disconnect" % (c["cls"], c["kib"]), sample=lambda c: c, classify=lambda c, i: "pushed/%d" % c["kib"])
+
+
 NAMES = ["connect", "disconnect", "operation", "with", "with-body-raising-KeyError", "with-body-raising-TimeoutError",
          "with-body-raising-ConnectionResetError", "with-body-cancelled", "clock-jumps-ahead"]
 
@@ -312,6 +347,7 @@ def run(tier, rnd, out):
     for cls in (SwitcherType1Api, SwitcherType2Api): run_sequences(out, "sequences", cls, seqs)
     run_aborts(out)
     run_context_bodies(out)
+    run_pushed_data(out)
     out.exhaustive = True
     out.notes.append("exhaustive over all action sequences up to length %d for both classes" % (3 if tier == "quick" else 4))
 
@@ -319,5 +355,6 @@ def run(tier, rnd, out):
 def replay(rp, out):
     if "form" in (rp.get("input") or {}): return run_aborts(out)
     if "body" in (rp.get("input") or {}): return run_context_bodies(out)
+    if "kib" in (rp.get("input") or {}): return run_pushed_data(out)
     c = rp["input"]; by = {"SwitcherType1Api": SwitcherType1Api, "SwitcherType2Api": SwitcherType2Api}
     run_sequences(out, rp.get("stream", "replay"), by[c["cls"]], [[tuple(a) for a in c["acts"]]])
